@@ -19,9 +19,10 @@ SPEC = dict(
         "R1 (bvmon/ref.py) renders the expected text; {pep440_version} occurrences are checked semantically "
         "(packaging: equal to the announced version) because C15 does not demand one spelling",
         "initial {pep440_version} text is what bumpver itself renders for the current version (setup only)",
-        "legacy {..} layouts are exercised in C20/C06/C13; this check drives v2 patterns",
+        "one case in eight is a legacy {..} layout (decorated {version} patterns, own and shared lines, LF/CRLF/CR)",
     ],
-    required=["update_ok", "show_ok", "shared_line_updates", "updates_with_a_pattern_on_several_lines"],
+    required=["update_ok", "show_ok", "shared_line_updates", "updates_with_a_pattern_on_several_lines",
+              "legacy_updates_ok", "legacy_shared_line_updates"],
     anchors=[("parse", "iter_matches"), ("v2rewrite", "rewrite_lines"), ("v2patterns", "normalize_pattern"),
              ("config", "_parse_raw_config")],
 )
@@ -31,14 +32,47 @@ EOLS = ("\n", "\n", "\r\n", "\r", "mixed")
 
 def cases(ctx):
     n = ctx.size(4000, 100000)
-    for _ in range(n):
-        yield {"pseed": ctx.rng.getrandbits(48)}
+    for i in range(n):
+        yield {"pseed": ctx.rng.getrandbits(48), "legacy": i % 8 == 7}
+
+
+def run_legacy(ctx, case, R, mods):
+    """legacy {..} layouts: every occurrence must show the announced version, byte-exact"""
+    proj, _why = projects.gen_legacy_project(R, mods, eol_choices=("\n", "\r\n", "\r"))
+    args = ["update", "--no-fetch", "--date", "2100-01-01"] + (["--patch"] if ("semver" in proj.vp or "MAJOR" in proj.vp) else [])
+    d = harness.new_project(proj.encoded())
+    try:
+        res = harness.invoke(args, cwd=d)
+        ctx.evaluated(("legacy", proj.vp, proj.meta["shared_lines"] > 0, tuple(proj.meta["eols"])),
+                      sample={"vp": proj.vp, "old": proj.cur_text, "argv": args})
+        if res.exit_code != 0:
+            if res.crash and res.crash.startswith("OverflowError"):
+                return
+            ctx.violation("other:legacy_update_failed", f"{args} on {proj.vp!r} {proj.cur_text!r}: {res.errors()[-2:]} "
+                          f"{res.crash or ''}", observed=proj.describe())
+            return
+        a = res.record_value("New Version: ")
+        ctx.count("legacy_updates_ok")
+        if proj.meta["shared_lines"]:
+            ctx.count("legacy_shared_line_updates")
+        want = projects.expected_files_legacy(proj, a)
+        after = harness.snapshot(d)
+        for fn, t in want.items():
+            if after.get(fn) != t.encode("utf-8"):
+                ctx.violation("other:legacy_stale_or_wrong_occurrence", f"{fn}: expected {t[:200]!r}, got "
+                              f"{after.get(fn, b'')[:200]!r} (vp={proj.vp!r} old={proj.cur_text!r} new={a!r})",
+                              observed=proj.describe())
+                break
+    finally:
+        harness.rm_dir(d)
 
 
 def run_case(ctx, case):
     R = random.Random(case["pseed"])
     mods = updates.bvmods()
     tdy = updates.today()
+    if case.get("legacy"):
+        return run_legacy(ctx, case, R, mods)
     proj, why = projects.gen_project(R, mods, tdy, eol_choices=EOLS, filler="plain")
     if proj is None:
         raise harness.Skip(why)
